@@ -127,6 +127,12 @@ impl<Error: Send + 'static> DecodeScheduler<Error> {
 			crate::verif::point("dec.end.stopped");
 			return Ok(NextStep::End);
 		}
+		// if the sound no longer exists (it was rejected by a full track, or
+		// discarded together with its track or manager), nobody will ever read
+		// the frames, so end the thread
+		if self.frame_producer.is_abandoned() {
+			return Ok(NextStep::End);
+		}
 		// if the frame ringbuffer is full, sleep for a bit
 		if self.frame_producer.is_full() {
 			#[cfg(kira_verif)]
